@@ -1,7 +1,9 @@
 CONSTANTS
   Alphabet <- L1
   Core <- L1Core
+  Mid <- L1Mid
   MaxAll = 2
+  MaxMid = 2
   MaxCore = 3
   Wrappers <- NoWrap
   MaxWrap = 0
